@@ -49,8 +49,9 @@ LEVELS = (
 )
 
 
-class CaseTimeout(Exception):
-    pass
+class CaseTimeout(KeyboardInterrupt):
+    """Raised by the per-case watchdog (SIGALRM).  Derives from KeyboardInterrupt so that asyncio does not
+    swallow it inside a task but lets it propagate out of the running event loop."""
 
 
 class Inconclusive(Exception):
@@ -140,9 +141,17 @@ def run_one(mod, case, timeout_s):
     t0 = time.time()
     try:
         res = mod.run_case(case)
-    except CaseTimeout:
-        res = Result()
-        res.inconclusive = "case watchdog (%ss) fired" % timeout_s
+    except CaseTimeout as e:
+        res = None
+        frames = [(f.filename, f.name, f.lineno) for f in traceback.extract_tb(e.__traceback__)]
+        if hasattr(mod, "on_timeout"):
+            try:
+                res = mod.on_timeout(case, frames, timeout_s)
+            except Exception:
+                res = None
+        if res is None:
+            res = Result()
+            res.inconclusive = "case watchdog (%ss) fired at %s" % (timeout_s, frames[-1:] )
     except Inconclusive as e:
         res = Result()
         res.inconclusive = "inconclusive: %s" % e
@@ -189,7 +198,10 @@ def shard_main(prop, tier, seed, shard, nshards, outpath, ncases, deadline_s):
                 )
                 out.flush()
                 continue
-            r = run_one(mod, case, b.get("case_timeout_s", 60))
+            tmo = b.get("case_timeout_s", 60)
+            if isinstance(case, dict) and case.get("timeout_s"):
+                tmo = case["timeout_s"]
+            r = run_one(mod, case, tmo)
             r["idx"] = idx
             if r["violations"] or idx % 97 == 0 or r.get("inconclusive"):
                 r["case"] = case
